@@ -57,7 +57,7 @@ func runC07(r *Runner, g *Gen, tier string) string {
 	// concurrent use of one codec's scratch state is the protomap family)
 	poolHistories(r, g, scale(tier, 60, 2000))
 	// shared interning tables (the protocol itself is C19's subject): large table, then a race
-	internLargeOps(r, scale(tier, 3, 40))
+	internLargeOps(r, scale(tier, 3, 24))
 	internSchedOps(r, g, scale(tier, 250, 8000))
 	n := scale(tier, 300, 20000)
 	for i := 0; i < n; i++ {
